@@ -65,3 +65,96 @@ Theorem C06_wrapper_roundtrip_witness :
   /\ decode [] true 10 t (JArr [JArr [JStr (b "a"); JNull]; JNull; JArr []]) VZero = Ok v.
 Proof. exact wrapper_roundtrip_example. Qed.
 Print Assumptions C06_wrapper_roundtrip_witness.
+
+(* ================= the round trip for STRUCTS (Proofs/StructRoundTrip.v) =================
+   Equality is [gnorm v' = gnorm v], the normal form the correspondence compares with: the order
+   of a struct value's association list follows the JSON key order and an unlisted field is the
+   zero value; Go cannot observe either. *)
+From Verif Require Import Corr.Rtcorr Proofs.StructRoundTrip.
+
+(* the generated INPUT types (and every response type without fragments and abstract fields):
+   structs of named, non-special fields whose types are scalars or such structs again under
+   slices and an optional pointer ([plain_decls]; recursive types allowed).  For every value
+   unmarshaling can produce ([cval]), marshaling succeeds and unmarshaling the result into the
+   zero value gives the value back, whenever the fuel suffices for marshaling ... *)
+Theorem C06_plain_struct_roundtrip :
+  forall tm w good, plain_decls tm good -> forall f t v,
+  ptype tm good t -> cval tm t v -> encode tm f t v <> OutOfFuel ->
+  exists j v', encode tm f t v = Ok j /\ decode tm w f t j (zero_of t) = Ok v' /\ gnorm v' = gnorm v.
+Proof. exact plain_roundtrip. Qed.
+Print Assumptions C06_plain_struct_roundtrip.
+
+(* ... and such a fuel exists when no struct contains itself by value (which Go rejects) *)
+Theorem C06_plain_struct_roundtrip_enough_fuel :
+  forall tm good, plain_decls tm good -> by_value_acyclic tm good -> forall w t v,
+  ptype tm good t -> cval tm t v ->
+  exists f0, forall f, (f0 <= f)%nat ->
+  exists j v', encode tm f t v = Ok j /\ decode tm w f t j (zero_of t) = Ok v' /\ gnorm v' = gnorm v.
+Proof. exact plain_roundtrip_enough_fuel. Qed.
+Print Assumptions C06_plain_struct_roundtrip_enough_fuel.
+
+(* the property as worded -- "every value v that a generated type OBTAINED BY UNMARSHALING":
+   v is any result of [decode], not a canonical over-approximation; [strict_decls] excludes
+   omitempty on a slice-typed field (refuted below) and map-kinded scalars *)
+Theorem C06_every_obtained_value_roundtrips :
+  forall tm w good, plain_decls tm good -> strict_decls tm good -> forall t j0 f0 v f,
+  ptype tm good t -> noany tm t ->
+  decode tm w f0 t j0 (zero_of t) = Ok v -> encode tm f t v <> OutOfFuel ->
+  exists j v', encode tm f t v = Ok j /\ decode tm w f t j (zero_of t) = Ok v' /\ gnorm v' = gnorm v.
+Proof. exact obtained_roundtrip. Qed.
+Print Assumptions C06_every_obtained_value_roundtrips.
+
+(* response types: embedded fragment structs (keys pairwise distinct under case folding through
+   every level of embedding, no struct embeds itself: [resp_decls] + the rank), lists of
+   interface values dispatched by __typename ([iface_decls]); [cval3] excludes exactly the
+   recorded findings (a nil slice of abstract values, an absent embedded / special value) *)
+Theorem C06_response_roundtrip :
+  forall tm good goodi, resp_decls tm good goodi -> iface_decls tm good goodi -> forall rk : str -> nat,
+  (forall m g fields s i e m1, good m -> assoc m tm = Some (DStruct g fields s i) ->
+     In e fields -> gf_name e = [] -> unwrap (gf_type e) = GStruct m1 -> (rk m1 < rk m)%nat) ->
+  forall f t v, ptype tm good t -> cval3 tm t v -> encode tm f t v <> OutOfFuel ->
+  exists j, encode tm f t v = Ok j
+    /\ exists f1 v', (forall f', (f1 <= f')%nat -> decode tm true f' t j (zero_of t) = Ok v') /\ gnorm v' = gnorm v.
+Proof. exact resp_roundtrip_total. Qed.
+Print Assumptions C06_response_roundtrip.
+
+(* REFUTED parts of the statement, each with a value that unmarshaling produces.
+   (1) omitempty on a list field: `{"tags": []}` decodes to an empty non-nil slice, which is
+   omitted when marshaled and comes back as nil (finding F-C06-4) *)
+Theorem C06_omitempty_empty_list_refuted :
+  exists tm n g fields s i j0 j v v',
+    assoc n tm = Some (DStruct g fields s i) /\ leaf_fields tm fields
+    /\ redecode tm (GStruct n) n j0 = Ok (j, v, v')
+    /\ gval_eqb (gnorm v') (gnorm v) = false /\ gnorm v' <> gnorm v
+    /\ j0 = JObj [(b "tags", JArr [])] /\ j = JObj [(b "name", JStr []); (b "ID", JStr []); (b "id", JStr [])]
+    /\ v = VStruct n [(b "Tags", VSlice [])]
+    /\ gnorm v' = VStruct n [].
+Proof. exact omitempty_empty_slice_refuted. Qed.
+Print Assumptions C06_omitempty_empty_list_refuted.
+
+(* (2) an outer key and an embedded fragment's key that differ only by case (finding F-C06-2,
+   here between a struct and its embedded fragment): `{"ID": "U", "id": null}` *)
+Theorem C06_embedded_case_collision_refuted :
+  exists tm n j0 j v v',
+    redecode tm (GStruct n) n j0 = Ok (j, v, v')
+    /\ gval_eqb (gnorm v') (gnorm v) = false /\ gnorm v' <> gnorm v
+    /\ j0 = JObj [(b "ID", JStr (b "U")); (b "id", JNull)]
+    /\ j = JObj [(b "ID", JNull); (b "id", JStr (b "U"))].
+Proof.
+  destruct embedded_case_collision_refuted as (tm & n & j0 & j & v & v' & H1 & H2 & H3 & _ & H5 & H6 & _).
+  exists tm, n, j0, j, v, v'. repeat split; assumption.
+Qed.
+Print Assumptions C06_embedded_case_collision_refuted.
+
+(* (3) a key carried by the struct and by an embedded fragment with different nullability
+   (finding F-C06-3): `{"id": null}` *)
+Theorem C06_embedded_shared_key_refuted :
+  exists tm n j0 j v v',
+    redecode tm (GStruct n) n j0 = Ok (j, v, v')
+    /\ gval_eqb (gnorm v') (gnorm v) = false /\ gnorm v' <> gnorm v
+    /\ j0 = JObj [(b "id", JNull)] /\ j = JObj [(b "id", JStr [])].
+Proof.
+  destruct embedded_shared_key_refuted as (tm & n & j0 & j & v & v' & H1 & H2 & H3 & _ & H5 & H6 & _).
+  exists tm, n, j0, j, v, v'. repeat split; assumption.
+Qed.
+Print Assumptions C06_embedded_shared_key_refuted.
